@@ -131,7 +131,9 @@ PyImportAlphabet ==
   {PyImport(<<N("os", "")>>), PyImport(<<N("os.path", "p"), N("sys", "")>>), PyFrom(".", <<N("x", "")>>, FALSE),
    PyFrom("k", <<N("u", ""), N("v", "")>>, TRUE), PyFrom("m", <<>>, FALSE)} \cup
   (IF Wide THEN {PyImport(<<N("a", ""), N("b", "c")>>), PyFrom("..m", <<N("y", "z"), N("w", "")>>, FALSE)} ELSE {})
-DecoLists == {<<>>, <<Deco("d", <<>>)>>} \cup (IF Wide \/ Detail = "bodies" THEN {<<Deco("d", <<>>), Deco("e.f", <<"1">>)>>} ELSE {})
+DecoLists == {<<>>, <<Deco("d", <<>>)>>} \cup
+             (IF Wide \/ Detail = "bodies"
+              THEN {<<Deco("d", <<>>), Deco("e.f", <<"1">>)>>, <<Deco("d", <<>>), Deco("e.f", <<"1">>), Deco("g", <<>>)>>} ELSE {})
 MethodLists(c) ==
   LET m == PyFn("m", <<>>, <<>>)
       n == PyFn("n", <<Deco("s", <<>>)>>, <<>>)
